@@ -192,24 +192,34 @@ def loop_sites(toks, o, c):
     return sites
 
 
-def inject(text, spec):
+def inject(text, spec, errors=None):
+    """errors: optional dict; when given, a function whose table no longer fits (missing, loop count changed) is recorded
+    there and left un-annotated instead of aborting the whole injection"""
     toks = list(_tokens(text))
     inserts = []
     nloops = 0
     for fname, f in spec["functions"].items():
-        o, c = find_function(toks, fname)
-        sites = loop_sites(toks, o, c)
-        if len(sites) != f["count"]:
-            raise InjectError(f"{fname}: expected {f['count']} loops, source has {len(sites)}")
-        for ordn, l in f["loops"].items():
-            if not (1 <= ordn <= len(sites)):
-                raise InjectError(f"{fname}: loop ordinal {ordn} out of range")
-            lines = list(l["clauses"])
-            if f.get("guard"):
-                lines = [f"#ifdef {f['guard']}"] + lines + ["#endif"]
-            block = "\n" + "".join(f"{cl} {MARK}\n" for cl in lines)
-            inserts.append((sites[ordn - 1], block))
-            nloops += 1
+        try:
+            o, c = find_function(toks, fname)
+            sites = loop_sites(toks, o, c)
+            if len(sites) != f["count"]:
+                raise InjectError(f"{fname}: expected {f['count']} loops, source has {len(sites)}")
+            mine = []
+            for ordn, l in f["loops"].items():
+                if not (1 <= ordn <= len(sites)):
+                    raise InjectError(f"{fname}: loop ordinal {ordn} out of range")
+                lines = list(l["clauses"])
+                if f.get("guard"):
+                    lines = [f"#ifdef {f['guard']}"] + lines + ["#endif"]
+                block = "\n" + "".join(f"{cl} {MARK}\n" for cl in lines)
+                mine.append((sites[ordn - 1], block))
+        except InjectError as e:
+            if errors is None:
+                raise
+            errors[fname] = str(e)
+            continue
+        inserts += mine
+        nloops += len(mine)
     out = text
     for pos, block in sorted(inserts, reverse=True):
         out = out[:pos] + block + out[pos:]
